@@ -49,6 +49,8 @@ pub fn gen_round(r: &mut Prng, m: &mut Model, trace: usize, strategy: MultipathS
     let len = m.path_len[trace];
     let t0 = SystemTime::now() - Duration::from_secs(5);
     let flow_branch = if strategy == MultipathStrategy::Classic { 0 } else { r.below(3) as usize };
+    // (a second, independently varying position gives up to nine distinct paths)
+    let flow_branch2 = if strategy == MultipathStrategy::Classic { 0 } else { r.below(3) as usize };
     let mut probes = Vec::new();
     let silent_round = r.chance(1, 12);
     for j in 0..len {
@@ -59,7 +61,7 @@ pub fn gen_round(r: &mut Prng, m: &mut Model, trace: usize, strategy: MultipathS
         } else if r.chance(1, 25) {
             probes.push(ProbeStatus::Failed(synth::failed(p)));
         } else {
-            let branch = if j % 3 == 1 { flow_branch } else if r.chance(1, 10) { 1 } else { 0 };
+            let branch = if j % 3 == 1 { flow_branch } else if j % 3 == 2 && j > 3 { flow_branch2 } else if r.chance(1, 10) { 1 } else { 0 };
             let host = if j + 1 == len { targets_for(trace + 1)[trace] } else { addr_of(usize::from(ttl), branch) };
             let ext = if r.chance(1, 6) {
                 Some(Extensions { extensions: vec![Extension::Mpls(MplsLabelStack { members: vec![MplsLabelStackMember { label: 16_000 + u32::from(ttl), exp: 1, bos: 1, ttl: 3 }] })] })
@@ -105,6 +107,11 @@ fn index_invariants(s: &Session, o: &mut Outcome, site: &str, replay: &Value, ct
                 bad = Some(("hop-address", format!("selected address index {} of {} addresses", app.selected_hop_address, hops[sel].addr_count())));
             }
         }
+    }
+    // with the flows panel open the selected flow must be one of the flows being displayed
+    // (the flow navigation keys look it up there)
+    if bad.is_none() && app.show_flows && !app.flow_counts.iter().any(|(id, _)| *id == app.selected_flow) {
+        bad = Some(("flow-displayed", format!("flows panel open, selected flow {} is not among the {} flows displayed ({} registered)", app.selected_flow, app.flow_counts.len(), st.flows().len())));
     }
     let tabs = settings_tabs();
     if app.settings_tab_selected >= tabs.len() {
@@ -229,7 +236,7 @@ pub fn session(seed: u64, i: usize, tier: Tier, which: Which, progress: &crate::
         traces,
         protocol,
         strategy,
-        max_flows: *r.pick(&[1usize, 2, 64]),
+        max_flows: *r.pick(&[1usize, 2, 3, 5, 64]),
         max_samples: *r.pick(&[1usize, 3, 256]),
         with_geoip: r.chance(2, 3),
     };
